@@ -155,4 +155,16 @@ CLAIMS.update({
         note=COMMON_NOTE + ' Partial: data races and writes through aliased Go pointers cannot be expressed in the value-based model; they are searched for by the run (race detector, snapshots), '
              'not proved absent. Store operations are taken as atomic (memcache mutex; fscache by C15).'),
 })
+CLAIMS.update({
+    'C03': dict(
+        text=('Theorems C03_key_sound (for all pairs of http/https URLs of the domain url_wf — reg-name or bracketed IP-literal host, optional numeric port, empty or absolute path with '
+              'well-formed escapes, any query bytes — equal cache keys imply equal RFC 3986 §6.2.2-6.2.3 normal forms: URLs differing in scheme, host, port, path bytes or query bytes after '
+              'normalisation never share a key), C03_key_complete (the converse), C03_different_uris_different_keys, C03_lookup_by_key (a plain GET consults exactly the index under the key '
+              'of its URL), C03_not_plain_get_bypasses_store (a request that is not a GET without Range never reads or writes a stored response and is answered by the origin). The normal form '
+              'is written after the RFC, not after the code. The run evaluates monitor mon_C03 (the body served was produced by an earlier plain GET for an equivalent URI) on generated '
+              'histories with near-miss URLs (case, escapes, default and explicit ports, IPv6 literals, dot and empty segments, non-ASCII bytes), reports how many generated URLs lie in '
+              'url_wf, and compares model and implementation.'),
+        note=COMMON_NOTE + ' The key theorems speak about parsed URLs (net/url.Parse is modelled for the generated grammar: no userinfo, no opaque form); URLs outside url_wf (e.g. a bracketed host '
+             'without a colon) are covered by the run only. The history-level statement is checked by the monitor, not proved over histories.'),
+})
 NOT_YET = {}
